@@ -143,6 +143,13 @@ def check_date_format_entry(repo, rep):
            "" if not bad else f"{bad}: the cell's date format is ignored on that path and another text is displayed", key="C14.R1@date_format:entry")
 
 
+def _anc_nodes(n):
+    p = getattr(n, "_parent", None)
+    while p is not None:
+        yield p
+        p = getattr(p, "_parent", None)
+
+
 def run(repo, rep, tier):
     dmap = repo.module_assign("constants.py", "DATETIME_FIELD_MAP")
     entries = []
@@ -180,6 +187,22 @@ def run(repo, rep, tier):
     fp = repo.func("cell.py", "Formatting.__post_init__")
     ok = "if el not in DATETIME_FIELD_MAP" in U(fp)
     rep.ob("C14.R1", fp, "format validation on write uses the same table", ok, "", key="C14.R1@validator")
+    # the format text the caller gave is validated, never rewritten: it is what is stored and later rendered
+    cls_f = repo.cls("cell.py", "Formatting")
+    rewrites = []
+    for m_ in cls_f.body:
+        if not isinstance(m_, ast.FunctionDef):
+            continue
+        for n_ in body_walk(m_):
+            tg = n_.targets[0] if isinstance(n_, ast.Assign) and len(n_.targets) == 1 else (n_.target if isinstance(n_, (ast.AugAssign, ast.AnnAssign)) else None)
+            if tg is not None and U(tg) == "self.date_time_format" and n_.value is not None:
+                reads_self = any(isinstance(x, ast.Attribute) and U(x) == "self.date_time_format" for x in ast.walk(n_.value))
+                guarded_default = any(isinstance(p_, ast.If) and U(p_.test).replace(" ", "") == "self.date_time_formatisNone" for p_ in _anc_nodes(n_))
+                if isinstance(n_, ast.AugAssign) or reads_self or not (guarded_default or isinstance(n_.value, ast.Constant) or isinstance(n_.value, ast.Name)):
+                    rewrites.append(n_)
+    rep.ob("C14.R1", rewrites[0] if rewrites else fp, "Formatting stores the date format exactly as given (only a missing one gets the default)", not rewrites,
+           "" if not rewrites else f"`{U(rewrites[0])[:70]}` changes the format text: literal characters of the format (spaces, tabs, punctuation at the ends) no longer appear in the displayed value",
+           key="C14.R1@format-as-given")
 
     # ---- R2 strftime entries / R3 lambda entries
     henv = helper_env(repo)
@@ -319,6 +342,7 @@ def check_scanner(repo, rep):
 
 
 VARIANTS = [
+    M("date-format-stripped-on-construction", "cell.py", "            formats = re.sub(r\"[^a-zA-Z\\s]\", \" \", self.date_time_format).split()", "            self.date_time_format = self.date_time_format.strip()\n            formats = re.sub(r\"[^a-zA-Z\\s]\", \" \", self.date_time_format).split()", "C14.R1"),
     M("unit-in-range-strict-upper", "cell.py", "            return largest <= unit_type and smallest >= unit_type", "            return largest <= unit_type and smallest > unit_type", "C14.R4"),
     T("unit-in-range-chained", "cell.py", "            return largest <= unit_type and smallest >= unit_type", "            return largest <= unit_type <= smallest"),
     M("date-field-callable-not-called", "cell.py", "        if callable(s):\n            return s(value)\n        return value.strftime(s)", "        return value.strftime(s)", "C14.R1"),
